@@ -342,4 +342,5 @@ VARIANTS = [
     V("load-without-mode-reset", "src/leaspy/models/stateful.py", "        self._state.put_population_latent_variables(LatentVariableInitType.PRIOR_MODE)\n\n        # check equality of other values",
       "        # check equality of other values", "C12.R3"),
     V("params-not-listed", MB, "k: tensor_to_list(v) for k, v in (self.parameters or {}).items()", "k: v for k, v in (self.parameters or {}).items()", "C12.R4"),
+    V("silent-rename-dict", "src/leaspy/models/joint.py", "dict_params", "out", None, count=3),
 ]
